@@ -380,6 +380,16 @@ def _r093_selection(ctx):
         ok = True
         if losses.op != "comp" and A.C.canon(losses).op == "comp":
             losses = A.C.canon(losses)     # list(map(loss, range(n))) and similar spellings of the comprehension
+        lo = losses
+        while lo.op == "assume":
+            lo = lo.args[1]
+        if lo.op == "loopout" and lo.args[2].op == "list" and not lo.args[2].args[0] and len(lo.args[3]) == 1 and lo.args[1].op == "elem":
+            # losses = []; for ...: losses.append(elt)  - one unconditional append per element: the list [elt for ...]
+            v_ = lo.args[3][0]
+            while v_.op == "assume":
+                v_ = v_.args[1]
+            if v_.op == "listappend" and v_.args[0].op == "loopvar":
+                losses = mk("comp", "list", v_.args[1], ((lo.args[1].args[0], ()),))
         if losses.op == "comp" and losses.args[0] == "list":
             elt, gens = losses.args[1], losses.args[2]
             k = mk("elem", gens[0][0])
@@ -398,6 +408,12 @@ def _r093_selection(ctx):
                 forms = [A.at(e, f"{w} * O + self.constraint_weight * self.gammas_[Cc].max()", b)
                          for w in ("self.objective_weight", "(1.0 - self.constraint_weight)")]
                 loss_ok = okz and any(A.eq(elt, f_) for f_ in forms)
+                if not loss_ok:
+                    # for i, c in enumerate(grid.columns): the position indexes objectives_, the label indexes gammas_
+                    oke = A.eq(gens[0][0], A.at(e, "enumerate(G.columns)", {"G": grid, "enumerate": glob("builtins.enumerate")}))
+                    forms = [A.at(e, f"{w} * self.objectives_[O] + self.constraint_weight * self.gammas_[Cc].max()", b)
+                             for w in ("self.objective_weight", "(1.0 - self.constraint_weight)")]
+                    loss_ok = oke and any(A.eq(elt, f_) for f_ in forms)
     np_ok = v.op == "call" and v.args[0] is glob("numpy.argmin")
     ctx.ob("R09.3", fq, e.node, ok or np_ok, "best_idx_ is the first index attaining the minimum loss", construct="first argmin")
     ctx.ob("R09.3", fq, e.node, loss_ok, "loss(i) = (1 - constraint_weight)*objectives_[i] + constraint_weight*max(gammas_[grid "
